@@ -1377,6 +1377,9 @@ class UnitQuaternion(Quaternion):
         assert base.isvector(w, 3), 'w must be a 3-vector'
         w = base.getvector(w)
         theta = base.norm(w)
+        if base.iszerovec(w):
+            # null rotation, the axis is undefined
+            return cls()
         s = math.cos(theta / 2)
         v = math.sin(theta / 2) * base.unitvec(w)
         return cls(s=s, v=v, check=False)
